@@ -37,3 +37,26 @@ def callbacks(u):
     u.method(reg, "__call__", cbtype, *args)
     u.ensure(len(log) == 2 * n0, "a_second_announcement_calls_them_again(no_one-shot_state)")
     u.cover("end")
+
+
+@unit("C12.SolverResult.accessors", ["C12", "C01"], ["pygradflow.result.SolverResult.__init__", "pygradflow.result.SolverResult._set_path", "pygradflow.result.SolverResult.__getattr__", "pygradflow.result.SolverResult.success", "pygradflow.result.SolverResult.status", "pygradflow.status.SolverStatus.success"], config={"max_paths": 50})
+def result_accessors(u):
+    """what a caller reads from the result is what the solver stored: x, y, d, status, success, and - when a path was
+    attached - path / model_times through __getattr__ (missing attributes read as None, they do not raise)"""
+    from pyvc.values import Arr, Obj
+    from .common import mk_problem
+
+    problem = mk_problem(u)
+    n, m = problem.fields["__n__"], problem.fields["num_cons"]
+    x, y, d = Opaque("x"), Opaque("y"), Opaque("d")
+    names = ["Optimal", "IterationLimit", "TimeLimit", "LocallyInfeasible", "Unbounded"]
+    k = u.path.choose_n(len(names), "status")
+    st = u.enum("pygradflow.status.SolverStatus", names[k])
+    res = u.construct("pygradflow.result.SolverResult", problem, x, y, d, st, iterations=3, num_accepted_steps=2, total_time=0.5, dist_factor=1.0)
+    u.ensure(u.get(res, "x") is x and u.get(res, "y") is y and u.get(res, "d") is d, "x/y/d_accessors")
+    u.ensure(u.get(res, "status") is st, "status_accessor")
+    succ = u.get(res, "success")
+    u.ensure(succ is (names[k] == "Optimal") or succ == (names[k] == "Optimal"), "success<=>status_is_Optimal", desc=f"{names[k]} -> {succ}")
+    kind, val = u.raised(lambda: u.get(res, "path"))
+    u.ensure(kind == "ok" and val is None, "no_path_attached:path_reads_as_None(no_AttributeError)")
+    u.cover("end")
